@@ -168,13 +168,32 @@ def task_accept(spec):
     kT = units.kB * spec["T"]
 
     def run(ch):
-        sysm, trials = execute(spec, ch, depth, policy)
+        from qv.checks.c03 import _late
+
+        sysm, trials = execute(spec, ch, depth, policy, setup=_late(spec))
         masses = sysm.atoms.get_masses().copy()
         calc = sysm.calc_factory()
+        op = sysm.entries["h"].operation
+        integ = (float(op.dt), int(op.max_steps))
+        ref_atoms = sysm.atoms.copy()
         sysm.close()
-        return trials, masses, calc
+        return trials, masses, calc, integ, ref_atoms
 
-    for ch, (trials, masses, calc) in explore(run, stats=st):
+    def reference_verlet(ref_atoms, calc, x, p, m, dt, n):
+        a = ref_atoms.copy()
+        a.calc = calc
+        a.positions = x
+        f = a.get_forces()
+        x, p = x.copy(), p.copy()
+        for _ in range(n):
+            ph = p + 0.5 * f * dt
+            x = x + ph / m[:, None] * dt
+            a.positions = x
+            f = a.get_forces()
+            p = ph + 0.5 * f * dt
+        return x, p
+
+    for ch, (trials, masses, calc, integ, ref_atoms) in explore(run, stats=st):
         counters["executions"] += 1
         for t in trials:
             if t.error is not None:
@@ -202,6 +221,17 @@ def task_accept(spec):
             k1 = float((ac["momenta"] ** 2 / (2 * masses[:, None])).sum())
             logA = -((u1 + k1) - (u0 + k_fresh)) / kT
             thr = t.thresholds[-1]
+            if ac["n"] == len(x0):
+                xr, pr = reference_verlet(ref_atoms, calc, x0.copy(), p_fresh, masses, integ[0], integ[1])
+                ex = np.abs(xr - ac["positions"]).max()
+                ep = np.abs(pr - ac["momenta"]).max() / max(1e-12, np.abs(pr).max())
+                if ex > 1e-9 or ep > 1e-9:
+                    kind = "after-vetoed-attempt" if vetoes else "first-attempt"
+                    sig = f"C14/acceptance/{kind}/proposal-is-not-the-trajectory-of-the-fresh-momenta"
+                    seen[sig] = seen.get(sig, 0) + 1
+                    if seen[sig] <= 2:
+                        viol.append({"signature": sig, "what": f"the configuration presented to the criteria differs from a reference velocity-Verlet trajectory started from the pre-trial positions and the freshly drawn momenta (positions off by {ex:.3g}, momenta by {ep:.3g}); history {js([[x.name, x.verdict] for x in trials])}", "replay": {"check": PID, "func": "task_accept", "arg": {**spec, "only": ch.choices}}})
+                    continue
             counters["evaluations"] += 1
             if 0 < thr < 1:
                 counters["nontrivial"] += 1
